@@ -39,6 +39,8 @@ pub enum Case {
     FixArity { bytes: B, pulls: u8 },
     /// bytes on a generated tree
     Gen { tree: Tree, bytes: B },
+    /// `head ++ item x n ++ tail` on the fixed tree: messages of 2^16 +- 1 units or data elements
+    Repeat { head: B, item: B, n: u32, tail: B },
     /// bytes on tree `idx` of the pool generated from `seed` (bounded-exhaustive token strings)
     Pool { seed: u64, idx: u32, bytes: B },
 }
@@ -212,10 +214,10 @@ fn expectation(model: &Tree, bytes: &[u8]) -> Option<Expect> {
 
 const N_PLANS: usize = 48;
 
-fn plans(arity: Option<usize>) -> Vec<UnitPlan> {
+fn plans(arity: Option<usize>, swallow: bool) -> Vec<UnitPlan> {
     (0..N_PLANS)
         .map(|k| match arity {
-            None => UnitPlan { greedy: true, respond: vec![RespDatum::I32(k as i32)], ..Default::default() },
+            None => UnitPlan { greedy: true, swallow, respond: vec![RespDatum::I32(k as i32)], ..Default::default() },
             Some(m) => UnitPlan { greedy: false, pulls: (0..m).map(|_| crate::rec::Pull { optional: false, as_: crate::rec::PullAs::Raw }).collect(), respond: vec![RespDatum::I32(k as i32)], ..Default::default() },
         })
         .collect()
@@ -249,13 +251,21 @@ pub fn judge_arity(node: &Node<'static, LogDev>, model: &Tree, bytes: &[u8], ari
             obs.label(if fewer { "arity: missing parameter expected" } else { "arity: surplus parameter expected" });
         }
     }
-    if exp.calls.len() + 1 >= N_PLANS {
-        obs.label("no claim (more units than scripted plans)");
-        return Ok(());
+    compare(node, bytes, &exp, arity, false, obs)?;
+    if arity.is_none() && exp.want == Want::CommandError {
+        // the same with handlers that do not propagate the error of a parameter pull: a
+        // lexical fault must abort the message all the same
+        obs.label("judged again with handlers that ignore pull errors");
+        compare(node, bytes, &exp, arity, true, &Obs::new())?;
     }
-    let txt = escape(bytes);
-    let mut dev = LogDev::with_plan(plans(arity));
-    dev.default_plan = UnitPlan::greedy();
+    Ok(())
+}
+
+fn compare(node: &Node<'static, LogDev>, bytes: &[u8], exp: &Expect, arity: Option<usize>, swallow: bool, obs: &Obs) -> CheckResult {
+    let txt = if swallow { format!("{} [handlers ignore pull errors]", escape(bytes)) } else { escape(bytes) };
+    let mut dev = LogDev::with_plan(plans(arity, swallow));
+    // calls beyond the scripted plans all answer with N_PLANS
+    dev.default_plan = plans(arity, swallow).pop().map(|mut p| { p.respond = vec![RespDatum::I32(N_PLANS as i32)]; p }).unwrap();
     let mut ctx = Context::default();
     let mut resp: Vec<u8> = Vec::new();
     let result = node.run(bytes, &mut dev, &mut ctx, &mut resp);
@@ -297,7 +307,7 @@ pub fn judge_arity(node: &Node<'static, LogDev>, model: &Tree, bytes: &[u8], ari
                     if !want.is_empty() {
                         want.push(b';');
                     }
-                    want.extend_from_slice(k.to_string().as_bytes());
+                    want.extend_from_slice(k.min(N_PLANS).to_string().as_bytes());
                 }
             }
             if !want.is_empty() {
@@ -417,6 +427,14 @@ pub fn check(case: &Case, obs: &Obs) -> CheckResult {
             })
         }),
         Case::Fix { bytes } => FIX_MODEL.with(|m| judge(&crate::fixtree::FIXTREE, m, bytes, obs)),
+        Case::Repeat { head, item, n, tail } => {
+            let mut bytes = head.0.clone();
+            for _ in 0..*n {
+                bytes.extend_from_slice(item);
+            }
+            bytes.extend_from_slice(tail);
+            FIX_MODEL.with(|m| judge(&crate::fixtree::FIXTREE, m, &bytes, obs))
+        }
         Case::FixArity { bytes, pulls } => FIX_MODEL.with(|m| judge_arity(&crate::fixtree::FIXTREE, m, bytes, Some(*pulls as usize), obs)),
         Case::Class { bytes } => CLASS_MODEL.with(|m| judge(&crate::props::c01::CLASS_TREE, m, bytes, obs)),
         Case::Gen { tree, bytes } => {
